@@ -596,4 +596,7 @@ def _cov_c10(st, tier):
         c["states"] += eb["states"]; c["transitions"] += eb["transitions"]; c["traces_validated_against_impl"] += eb["transitions"]; c["evaluations"] += eb.get("letters_applied", 0)
     return c
 PROPS["C10"]["coverage"] = _cov_c10
+# quick-tier budgets are deadlines, not targets: generous, so that a busy machine does not cut an exploration short
+for _p in ("C01", "C02", "C03", "C04", "C05", "C06", "C10", "C11", "C14", "C15", "C16", "C20"):
+    PROPS[_p]["tiers"]["quick"]["budget_s"] = max(PROPS[_p]["tiers"]["quick"]["budget_s"], 1500)
 
